@@ -95,6 +95,127 @@ def strip_links(S):
     return S
 
 
+def _chain(dmod, i, depth=0):
+    """What a MetaModule's i-th user-defined controller is mapped onto in the END (through nested MetaModules), read from the
+    independently decoded file: ('offset', k) | ('enum',) | ('bool',) | None (not judged)."""
+    if depth > 6:
+        return None
+    pl = dmod.get("payload") or {}
+    maps = pl.get("mappings") or []
+    if i >= len(maps):
+        return ("offset", 0)
+    mi, ci = maps[i][0], maps[i][1]
+    mods = (pl.get("project") or {}).get("modules") or []
+    if mi == 0 or mi >= len(mods) or mods[mi] is None:
+        return ("offset", 0)                       # names no module: the generic 0..44100 controller
+    target = mods[mi]
+    t = spec.by_mtype().get(target["type"])
+    if t is None:
+        return None
+    if target["type"] == "MetaModule":
+        builtin = [c for c in t.controllers if not c.name.startswith("user_defined")]
+        if ci >= len(builtin):
+            j = ci - len(builtin)
+            if j >= 96:
+                return ("offset", 0)
+            if j >= target["options"].get("user_defined_controllers", 0):
+                return None                        # a hidden slot of the inner module: its type is not derivable from the file
+            return _chain(target, j, depth + 1)
+        sc = builtin[ci]
+    else:
+        if ci >= len(t.controllers):
+            return None if target["type"] == "Sampler" else ("offset", 0)
+        sc = t.controllers[ci]
+    if sc.kind == "enum":
+        return ("enum",)
+    if sc.kind == "bool":
+        return ("bool",)
+    if sc.kind in ("no_offset", "dependent"):
+        return ("offset", 0)
+    return ("offset", sc.min if sc.min < 0 else 0)
+
+
+def typed_user_values(res, raw, S, desc, origin):
+    """The visible value of every exposed MetaModule controller after LOADING, against the documented rule 'stored value plus
+    the (negative) minimum of the controller it is mapped onto', resolved through nested MetaModules from the bytes alone."""
+    try:
+        dec, _problems = refcodec.decode(raw)
+    except Exception:
+        return
+
+    def walk(smod, dmod, path):
+        if smod is None or dmod is None or smod.get("type") != dmod.get("type"):
+            return
+        if dmod["type"] == "MetaModule":
+            n = dmod["options"].get("user_defined_controllers", 0)
+            for i in range(min(n, 96)):
+                name = f"user_defined_{i + 1}"
+                rawv = dmod["user_values_raw"].get(name)
+                what = _chain(dmod, i)
+                if rawv is None or what is None or name not in smod["controllers"]:
+                    res.count("typed_user_values_not_judged")
+                    continue
+                got = smod["controllers"][name]
+                want = rawv + what[1] if what[0] == "offset" else (bool(rawv) if what[0] == "bool" else rawv)
+                res.count("typed_user_values_judged")
+                res.hist("typed_user_values_by_kind", what[0] + ("-shifted" if what[0] == "offset" and what[1] else ""))
+                if getattr(got, "value", got) != want:
+                    res.violation(f"C04:decode-user-value:{what[0]}", f"{origin} {path}/{name}: stored {rawv}, mapped (through the embedded projects) onto {what}: denotes {want!r}, rv loaded {got!r}", desc)
+                    return
+            sm = ((smod.get("payload") or {}).get("project") or {}).get("modules") or []
+            dm = ((dmod.get("payload") or {}).get("project") or {}).get("modules") or []
+            for k, (a, b) in enumerate(zip(sm, dm)):
+                walk(a, b, f"{path}/embedded[{k}]")
+    if S.get("kind") == "project" and dec.get("kind") == "project":
+        for k, (a, b) in enumerate(zip(S["modules"], dec["modules"])):
+            walk(a, b, f"/modules[{k}]")
+    elif S.get("kind") == "synth" and dec.get("kind") == "synth":
+        walk(S["module"], dec["module"], "/module")
+
+
+def nested_proxy_files(res, rng, n):
+    """Files in which an exposed controller reaches its real target through one or two further MetaModules; targets of every
+    kind (signed, compact, no-offset, unit-dependent, enum, bool, zero-based).  Judged by typed_user_values only (bytes ->
+    documented meaning), so it does not matter which library wrote the bytes."""
+    import rv.api as api
+    from rv.modules import MODULE_CLASSES
+    sp = spec.load()
+    cands = [(T, i, sc) for T, t in sorted(sp.items()) if T not in ("Output", "MetaModule") for i, sc in enumerate(t.controllers) if sc.attached]
+    signed = [c for c in cands if c[2].kind in ("range", "compact") and c[2].min < 0]
+    for k in range(n):
+        T, ci, sc = rng.choice(signed) if k % 2 == 0 else rng.choice(cands)
+        levels = 2 + k % 2
+        proj = api.Project()
+        mod = proj.new_module(MODULE_CLASSES[sp[T].mtype])
+        try:
+            if sc.kind in ("range", "compact", "no_offset"):
+                setattr(mod, sc.name, rng.randint(sc.min, sc.max))
+        except Exception:
+            pass
+        mm = api.m.MetaModule(project=proj)
+        mm.user_defined_controllers = 1
+        mm.mappings.values[0] = mm.Mapping((mod.index, ci))
+        mm.update_user_defined_controllers()
+        for _ in range(levels - 1):
+            outer_p = api.Project()
+            outer_p.attach_module(mm)
+            outer = api.m.MetaModule(project=outer_p)
+            outer.user_defined_controllers = 1
+            outer.mappings.values[0] = outer.Mapping((mm.index, 5))
+            outer.update_user_defined_controllers()
+            mm = outer
+        desc = {"nested_proxy": f"{T}.{sc.name}", "levels": levels}
+        try:
+            raw = api.Synth(mm).read()
+            o = workload.load(raw)
+        except Exception as e:
+            res.violation(f"C04:foreign-file-unloadable:{workload.exc_key(e)}", f"nested MetaModules exposing {T}.{sc.name} through {levels} levels do not save/load: {e!r}", desc)
+            continue
+        res.count("nested_proxy_files")
+        res.case(raw)
+        typed_user_values(res, raw, build.norm(_snap(o), "after"), desc, "nested-proxy")
+
+
 def encoded_case(res, seed, index, tier, rng):
     import rv.api as api
     kind = "project" if index % 3 else "synth"
@@ -134,6 +255,7 @@ def encoded_case(res, seed, index, tier, rng):
     if res.evaluations % 53 == 1:
         res.sample({"family": "reference-encoded", "kind": kind, "bytes": len(raw), "choices": ch.describe()})
     S = build.norm(_snap(o), "after")
+    typed_user_values(res, raw, S, desc, "reference-encoded")
     E = expected_after_choices(N, ch)
     if ch.legacy_header and kind == "project":
         for k in ("initial_bpm", "initial_tpl", "global_volume", "file_version"):
@@ -193,6 +315,7 @@ def fixture_compare(res, name, raw):
         res.violation(f"C04:fixture-unloadable:{workload.exc_key(e)}", f"{name} does not load: {e!r}", desc)
         return None
     S = build.norm(_snap(o), "after")
+    typed_user_values(res, raw, S, desc, f"fixture {name}")
     by = spec.by_mtype()
     for path, a, b in refcodec.compare(S, dec):
         if b is None or b in ("<absent>", "None") or a == "<absent>":
@@ -423,6 +546,8 @@ def run_edits(res, origin, raw, desc, rng, tier):
 
 
 def run_shard(spec_, res):
+    if spec_.get("shard") == 0:
+        nested_proxy_files(res, random.Random(spec_.get("seed", 0) + 3), 60 if spec_["tier"] == "quick" else 600)
     import rv.api as api
     monitors.install()
     rng = random.Random(env.shard_seed(spec_["shard"]))
